@@ -72,6 +72,15 @@ def gen_cases(tier, seed):
         for h in hists:
             for fh in qfh:
                 yield dict(kind="nest", which=k, hist=h, fh=fh, fam=seed % 2)
+    # members fitted as tasks of a parallel call (n_jobs=2 under the harness' own joblib backend,
+    # which collects all tasks of a call before running them in submission order)
+    for sub in ([0, 1], [0, 1, 2]):
+        for agg in ("mean", "median"):
+            for h in ("fp", "fUp", "fup"):
+                yield dict(kind="ens", members=sub, agg=agg, hist=h, fh=[1, 2], fam=seed % 2,
+                           par=True)
+        for h in ("fp", "fUp"):
+            yield dict(kind="stack", members=sub, hist=h, fh=[1, 2], fam=seed % 2, par=True)
     # independence: two composites constructed from the SAME member objects
     progs = [dict(kind="ens", members=[0, 1, 2], agg=a) for a in ("mean", "median", "online")] + \
         [dict(kind="ttf", seq=[i]) for i in (0, 1, 3, 9)] + [dict(kind="ttf", seq=[0, 9])] + \
@@ -339,7 +348,14 @@ def run_case(case):
     doubles.reset_log()
     doubles.reset_tokens()
     real = _build_real(_retag(spec, "#r"))
-    a = call(_play, real, spec, hist, y, n0, fh, False)
+    if case.get("par"):
+        from .. import sched
+
+        real.set_params(n_jobs=2)
+        with sched.order_backend():
+            a = call(_play, real, spec, hist, y, n0, fh, False)
+    else:
+        a = call(_play, real, spec, hist, y, n0, fh, False)
     log_r = [(t[0].replace("#r", ""),) + tuple(t[1:]) for t in doubles.LOG if "#r" in t[0]]
     tok_r = None
     if spec[0] == "stack" and a.ok:
